@@ -491,6 +491,9 @@ fn c01_history() {
     }
     settle_labelled(&mut w);
     cover("settled");
+    // the store's three views of the held set (index, distance index, farthest record) agree at quiescence:
+    // a stale view is what later lets an unrelated put destroy an accepted record
+    check_views_agree(w.driver.node_store(), "settled");
     for ki in 0..n_keys {
         let k = key(ki as u8);
         let got = w.driver.store().get(&k).map(|c| c.into_owned().value);
